@@ -722,9 +722,15 @@ def callers_map(fb):
         for bb, t, fn in b.calls():
             if not fn:
                 continue
+            hit = False
             for nm in {mir.callee_name(fn), fn['path']}:
                 if fb.body(nm) is not None and nm != b.path:
                     m.setdefault(nm, set()).add(b.path)
+                    hit = True
+            if not hit:
+                for nb in impls_of(fb, fn):         # a trait method on a type parameter: every implementation may be the callee
+                    if nb.path != b.path:
+                        m.setdefault(nb.path, set()).add(b.path)
     _CALLERS[0], _CALLERS[1] = fb, m
     return m
 
